@@ -238,16 +238,55 @@ def negative_cases(out):
                                       "case": {"sig": sig}, "features": {"why": "crash"}})
 
 
+_FIT_UNIVERSE = None
+
+
+def fit_universe():
+    """plain (non-reference, non-transaction) types of C19's universe"""
+    global _FIT_UNIVERSE
+    if _FIT_UNIVERSE is None:
+        from . import c19
+        _FIT_UNIVERSE = [t for t in c19.universe("quick") if c19.norm(t)[0] not in ("ref", "txn")]
+    return _FIT_UNIVERSE
+
+
+def fit_cases(ai, out):
+    """a value of type A given for a plain parameter declared as B, for EVERY B of the universe: if the two
+    types do not have the same ARC-4 layout the call must be rejected when it is built"""
+    from . import c19
+    U = fit_universe()
+    a = U[ai]
+    cnt, oc = out["counters"], out["outcomes"]
+    for b in U:
+        r = c19.method_call_accepts(a, b)
+        if r is None:
+            continue
+        cnt["traces_validated"] = cnt.get("traces_validated", 0) + 1
+        same = c19.same_layout(a, b)
+        key = "fit:%s/%s" % ("same" if same else "different", "accepted" if r else "rejected")
+        oc[key] = oc.get(key, 0) + 1
+        if r and not same:
+            out["violations"].append({
+                "driver": "fit", "size": 1,
+                "title": "MethodCall f(%s)void accepted an argument of type %s (different ARC-4 layout)" % (b, a),
+                "case": {"fit_a": str(a), "fit_b": str(b)}, "features": {"why": "ill-typed accepted"}})
+    cnt["states"] = cnt.get("states", 0) + 1
+    cnt["transitions"] = cnt.get("transitions", 0) + len(U)
+
+
 def _worker(items, base):
     out = {"counters": {}, "outcomes": {}, "violations": [], "samples": []}
     for case in items:
         if case.get("negative"):
             negative_cases(out)
             continue
+        if "fit" in case:
+            fit_cases(case["fit"], out)
+            continue
         check_case(case, out, _VERSIONS)
         out["counters"]["states"] = out["counters"].get("states", 0) + 1
         out["counters"]["transitions"] = out["counters"].get("transitions", 0) + max(1, len(case["params"]))
-    if items and base % 53 == 0 and not items[0].get("negative"):
+    if items and base % 53 == 0 and not items[0].get("negative") and "fit" not in items[0]:
         out["samples"].append({"signature": c09.method_sig("meth", items[0]["params"], items[0].get("ret")), "case": items[0]})
     return out
 
@@ -261,6 +300,10 @@ def run(tier):
     items = [c for c in c09.cases(tier)]
     items.append({"negative": True, "params": []})
     rep.bounds["signatures"] = len(items) - 1
+    nfit = len(fit_universe())
+    items += [{"fit": i, "params": []} for i in range(nfit)]
+    rep.bounds["fit_universe_types"] = nfit
+    rep.bounds["fit_ordered_pairs"] = nfit * nfit
     rep.bounds["versions"] = list(_VERSIONS)
     for sh in common.pmap_shards(_worker, items, shard_size=3, order_seed=rep.seed):
         rep.merge(sh)
@@ -273,7 +316,13 @@ def run(tier):
 
 def replay(case):
     out = {"counters": {}, "outcomes": {}, "violations": [], "samples": []}
-    if "params" not in case.get("case", {}):
+    if "fit_a" in case.get("case", {}):
+        U = fit_universe()
+        for i, t in enumerate(U):
+            if str(t) == case["case"]["fit_a"]:
+                fit_cases(i, out)
+        out["violations"] = [v for v in out["violations"] if v["case"] == case["case"]]
+    elif "params" not in case.get("case", {}):
         negative_cases(out)
     else:
         check_case(case["case"], out, (case["version"],))
